@@ -10,7 +10,7 @@ META = {
                    "ot[x] mapping stab to x. G1 checks that every composition in orbit-tree construction, Schreier generators, "
                    "enumeration, sifting and proof-carrying sifting uses operands of the right kind on the right side (frozen role table, "
                    "operand kinds classified by the type of the collection the value is drawn from, not by names). G2-G5 check add_set's "
-                   "growth report and rebuild, count, orbit, generators and triviality.",
+                   "growth report and rebuild, count, orbit, generators and triviality. G6-G8: the product loops of schreiers_lemma / build_ot / all_perms are exhaustive and insert elements of the right kind with no extra skip; a derived self-symmetry is a permutation of the class's slots (guard slots(a) == slots(b)); on a class merge the deprecated class's generators are renamed by deprecated.m ; survivor.m^-1 and handed to the survivor unconditionally.",
     "not_decided": "Schreier-Sims as mathematics; behaviour on non-permutation input",
     "assumptions": ["the convention stated in group/mod.rs: a.compose(b) = first a, then b"],
 }
